@@ -34,7 +34,11 @@ def load_config(text: str):
     """Parse a configuration text with the real parser. -> Configuration (reload() succeeded)"""
     quiet()
     from exabgp.configuration.configuration import Configuration
+    from exabgp.rib import RIB
 
+    # every load_config stands for a fresh process: the Adj-RIB cache is keyed by neighbor name and
+    # would otherwise hand the routes of the previous configuration to this one
+    RIB._cache.clear()
     conf = Configuration([text], text=True)
     ok = conf.reload()
     if ok is not True:
